@@ -90,6 +90,21 @@ def run(ctx, chk):
                "draw force success", ok, detail, cf.d.fi.module.path)
         chk.sample({"rule": "C01.forced", "class": K, "host_gates": host_gates,
                     "net_gates": net_gates})
+        # ---- a success must leave its marks: "the action must succeed and leave the host
+        # compromised with access ..." - every success exit of an Exploit stores compromised and
+        # access of its target, of a PrivilegeEscalation its access (absence of the store, e.g. a
+        # dropped write-back of the host row, is as wrong as a wrong value)
+        needed = {"Exploit": ("compromised", "access"), "PrivilegeEscalation": ("access",)}
+        for fam in needed.get(K, ()):
+            for o in cf.success:
+                got = [e for e in cf.net_effects(o) if e["kind"] == "cell" and e["fam"] == fam
+                       and e["addr"] == ALLOWED.get(K, {}).get(fam)]
+                # the whole-row write-back must be there too (the cell store goes into a copy)
+                rows = [e for e in cf.net_effects(o) if e["kind"] == "row" and e["ok"]]
+                chk.ob("C01.success-marks", f"{K}: every success exit stores {fam} of the target "
+                       "in the returned state", bool(got) and bool(rows),
+                       f"{len(got)} {fam} store(s), {len(rows)} row write-back(s) on the success "
+                       f"exit under {f_show(o.G)[:160]}", cf.d.fi.module.path)
         # ---- who writes what
         for o in cf.outcomes:
             succ = o.flag("success") is True
